@@ -34,6 +34,8 @@ impl Widths {
     }
     pub open spec fn wf(&self) -> bool { self.first_char + self.values@.len() <= usize::MAX }
 
+//@@ Widths::index_helper1
+//@@ Widths::index_helper2
 //@@ Widths::get
 //@@ Widths::new
 //@@ Widths::ensure_cid
